@@ -195,3 +195,6 @@ def check(run, views, tier):
                            "printer-uri value is %s on path [%s]" % (tshow(v)[:200], " && ".join(cshow(c) for c in p.conds)[:200]),
                            site(body, t[3]), key="R-TAINT-URI|%s|printer-uri-source" % path)
         run.floor("R-TAINT-URI", n_sites, 1, "printer-uri attribute constructions")
+        # the canonical value reaches the wire whole: encoder layout / length prefix of the string kinds (codec rules)
+        from .. import codecrules as cr
+        cr.r_layout(run, F, cr.layout_table(), external=True, casts=False)
